@@ -145,7 +145,51 @@ func c02Server() (*p9.Server, func() int) {
 func runC02(c *ev.Ctx) {
 	c02Sequences(c)
 	c02BadSizes(c)
+	c02FirstAfterVersion(c)
 	c02Client(c)
+}
+
+// c02FirstAfterVersion: the very first frame after Rversion must already obey
+// the announced msize. The receiver that reads it was usually parked in its
+// read *while* Tversion was being handled, so this is schedule-dependent
+// (observed on 0.5 % of connections before the fix): many short connections.
+func c02FirstAfterVersion(c *ev.Ctx) {
+	n := c.Sz(8000, 200000)
+	srv := p9.NewServer(noAttach{})
+	for i := 0; i < n; i++ {
+		if !c.Mine(i) {
+			continue
+		}
+		ms := []uint32{4096, 8192, 65536}[i%3]
+		sz := ms + 1 + uint32(i%900)
+		p := rawpeer.New(srv, nil)
+		if !p.Version(ms, v7).OK {
+			c.Inconclusive("C02 first-after-version: version")
+			p.Close()
+			continue
+		}
+		if i%4 == 0 {
+			runtime.Gosched()
+		}
+		p.Flush()
+		w0 := p.Written()
+		nrep := p.NReplies()
+		p.SendRaw(hdr(sz, 255, 9))
+		p.SendRaw(make([]byte, sz-7))
+		out, dump := quiesce.Await(p.HandleDone, wd)
+		c.Case(fmt.Sprintf("first-after-version:%d:%d", ms, i%8), true)
+		if out != quiesce.CondMet {
+			p.Flush()
+			det := map[string]any{"announced_msize": ms, "size_field": sz, "body_bytes_accepted": p.Written() - w0 - 7, "replies": p.NReplies() - nrep}
+			if out == quiesce.Stuck {
+				c.Violation("C02:srv:first-frame-after-Rversion-not-held-to-the-announced-msize", det)
+			} else {
+				hang(c, out, dump, "C02:srv:first-frame-after-Rversion", det)
+			}
+		}
+		c.Count("first_frames_after_version", 1)
+		p.Close()
+	}
 }
 
 func hexCut(b []byte) string {
